@@ -11,7 +11,8 @@ CHECKS=("$@"); [ ${#CHECKS[@]} -eq 0 ] && CHECKS=("$ID")
 W=$(mktemp -d /tmp/seedtest-wt.XXXXXX); rmdir "$W"
 git -C /repo worktree add -q --detach "$W" HEAD || exit 2
 EVBAK=$(mktemp -d /tmp/seedtest-ev.XXXXXX); cp -a /verif/evidence/. "$EVBAK"/
-trap 'git -C /repo worktree remove --force "$W" >/dev/null 2>&1; cp -a "$EVBAK"/. /verif/evidence/; rm -rf "$EVBAK" /verif/.bin-alt-$(echo "$W" | md5sum | cut -c1-8)' EXIT
+RPBEFORE=$(mktemp /tmp/seedtest-rp.XXXXXX); ls /verif/replays > "$RPBEFORE" 2>/dev/null
+trap 'git -C /repo worktree remove --force "$W" >/dev/null 2>&1; cp -a "$EVBAK"/. /verif/evidence/; rm -rf "$EVBAK"; for f in $(ls /verif/replays 2>/dev/null | grep -vxFf "$RPBEFORE"); do rm -f "/verif/replays/$f"; done; rm -f "$RPBEFORE"; rm -rf /verif/.bin-alt-$(echo "$W" | md5sum | cut -c1-8)' EXIT
 if ! git -C "$W" apply "$PATCH"; then echo "patch does not apply to /repo HEAD"; exit 2; fi
 for c in "${CHECKS[@]}"; do
   out=$(cd /verif && VERIF_REPO="$W" VERIF_SEED=${VERIF_SEED:-1} timeout 1800 ./check "$c" quick 2>&1); rc=$?
